@@ -13,9 +13,12 @@ def free_all(sc, binary, tier):
     for name, pat in (("v2", r"FREE runs=(\d+)"), ("v1", r"FREEV1 runs=(\d+)"), ("simple", r"FREESIMPLE runs=(\d+)")):
         m = re.search(pat, out)
         if not m:
+            if race_reports(out):        # the race detector spoke before the driver died: that is still a verdict
+                counts[name] = 0
+                continue
             raise Inconclusive("free-running driver %s died\n%s" % (name, out[-3000:]))
         counts[name] = int(m.group(1))
-    files = [os.path.join(sub, f) for f in ("free_events.ndjson", "freev1_events.ndjson", "freesimple_events.ndjson")]
+    files = [f for f in (os.path.join(sub, n) for n in ("free_events.ndjson", "freev1_events.ndjson", "freesimple_events.ndjson")) if os.path.exists(f)]
     return sub, files, counts, out
 
 
@@ -170,6 +173,9 @@ def check_C20(tier):
                           "through their engines (consumers keeping and modifying copy-mode slices). A report whose stacks involve the library is the violation. "
                           "non-trivial = free-running run with real parallelism (distinct seeds/configurations)",
                      free_runs=counts, free_events=sizes, race_reports=len(reports), other_engines=[n for n, _ in others])
-        v.sample(dict(free_run_config=json.loads(open(ffiles[0]).readline()).get("cfg")))
+        if ffiles and os.path.getsize(ffiles[0]):
+            v.sample(dict(free_run_config=json.loads(open(ffiles[0]).readline()).get("cfg")))
+        else:
+            v.sample(dict(note="free-running drivers did not complete"))
         v.assumptions += ["Go race detector (happens-before based): finds races only on executed schedules", "trusted base: Go runtime"]
     return v.finish()
